@@ -119,6 +119,10 @@ func runC18(p *engine.Prog, r *engine.Report) {
 								// range index starts at -1 and the body uses phi+1: 0..n-1
 								okIdx = true
 							}
+							if ph, ok := in.(*ssa.Phi); ok && it.S == fi.T(ph).S && countedFromZero(fi, ph, "Items") {
+								// for i := 0; i < len(items); i++
+								okIdx = true
+							}
 						}
 					}
 					if !okIdx {
@@ -139,7 +143,41 @@ func runC18(p *engine.Prog, r *engine.Report) {
 					probs = append(probs, "the table is not filled from the listed pods' names")
 				}
 				// id, url, readiness from that entry
-				ent := fi.T(lk).S
+				entVal := ssa.Value(lk)
+				if lk.CommaOk {
+					// v, ok := table[key]; a missing entry may be replaced by an empty pod (what the plain lookup yields)
+					var e0, e1 *ssa.Extract
+					for _, rr := range *lk.Referrers() {
+						if ex, ok := rr.(*ssa.Extract); ok {
+							if ex.Index == 0 {
+								e0 = ex
+							} else {
+								e1 = ex
+							}
+						}
+					}
+					if e0 != nil {
+						entVal = e0
+						for _, rr := range *e0.Referrers() {
+							ph, ok := rr.(*ssa.Phi)
+							if !ok || len(ph.Edges) != 2 || e1 == nil {
+								continue
+							}
+							for _, e := range ph.Edges {
+								if al, ok := e.(*ssa.Alloc); ok && len(*al.Referrers()) == 1 {
+									// allocated only where the ok flag is false
+									ab := al.Block()
+									if len(ab.Preds) == 1 {
+										if iff, ok := ab.Preds[0].Instrs[len(ab.Preds[0].Instrs)-1].(*ssa.If); ok && iff.Cond == ssa.Value(e1) && ab.Preds[0].Succs[1] == ab && ab.Preds[0].Succs[0] != ab {
+											entVal = ph
+										}
+									}
+								}
+							}
+						}
+					}
+				}
+				ent := fi.T(entVal).S
 				argT := []string{fi.T(call.Call.Args[0]).S, fi.T(call.Call.Args[1]).S, fi.T(call.Call.Args[2]).S}
 				entLocal := ""
 				// the entry is usually copied to a local (p := ps[...])
@@ -437,3 +475,36 @@ func runC18(p *engine.Prog, r *engine.Report) {
 
 func controlsC18(p *engine.Prog) []Control { return nil }
 
+
+// countedFromZero recognises the induction variable of "for i := 0; i < len(<...what...>); i++": a header phi of the
+// constant 0 and of itself plus one, tested against a length at the loop's exit test.
+func countedFromZero(fi *engine.FuncInfo, ph *ssa.Phi, what string) bool {
+	if len(ph.Edges) != 2 {
+		return false
+	}
+	zero, step := false, false
+	for _, e := range ph.Edges {
+		if c, ok := e.(*ssa.Const); ok && c.Value != nil && c.Value.ExactString() == "0" {
+			zero = true
+		}
+		if bo, ok := e.(*ssa.BinOp); ok && bo.Op == token.ADD && bo.X == ssa.Value(ph) {
+			if c, ok := bo.Y.(*ssa.Const); ok && c.Value != nil && c.Value.ExactString() == "1" {
+				step = true
+			}
+		}
+	}
+	if !zero || !step {
+		return false
+	}
+	b := ph.Block()
+	iff, ok := b.Instrs[len(b.Instrs)-1].(*ssa.If)
+	if !ok {
+		return false
+	}
+	cmp, ok := iff.Cond.(*ssa.BinOp)
+	if !ok || cmp.Op != token.LSS || cmp.X != ssa.Value(ph) {
+		return false
+	}
+	bt := fi.T(cmp.Y).S
+	return strings.HasPrefix(bt, "len(") && strings.Contains(bt, what)
+}
